@@ -160,6 +160,12 @@ class Copy(Contract):
 class _Overwritable(Contract):
     """methods with an `overwrite` flag: overwrite=False -> fresh result, self untouched; True -> result is self"""
 
+    def mutated(self, A):
+        if A.get('overwrite', False) is True:
+            me = A['self']
+            return [me.cores, me.ranks, me.row_dims, me.col_dims]
+        return []
+
     def instances(self):
         return [{'overwrite': False}, {'overwrite': True}]
 
@@ -923,6 +929,9 @@ def cap_ok(rank, mr):
 
 class _Sweep(Contract):
     props = ('C03', 'C04', 'C06')
+
+    def mutated(self, A):
+        return [A['self'].cores, A['self'].ranks]
 
     def mk_common(self, ex, state):
         m0 = ex.ctx.mark0
